@@ -7,6 +7,10 @@ import DdnnfVerif.Model.Enum
 import DdnnfVerif.Model.Optimal
 import DdnnfVerif.Model.Cnf
 import DdnnfVerif.Model.Concurrency
+import DdnnfVerif.Model.Sample
+import DdnnfVerif.Model.Persist
+import DdnnfVerif.Model.Atomic
+import DdnnfVerif.Model.D4Load
 import DdnnfVerif.Proofs.PDLeaf
 import DdnnfVerif.Proofs.CnfExport
 namespace Ddnnf
@@ -74,6 +78,79 @@ def enumLockAnswer (ws : List String) : String :=
       | none => "rejected-by-lock-discipline"
   | _ => "bad-args"
 
+def parseCfgList (len : Nat) (s : String) : List Config :=
+  if len == 0 then []
+  else (s.splitOn ";").map fun c => ((c.splitOn ",").filter (· ≠ "")).filterMap String.toInt?
+
+def parseSEv (w : String) : Option SEv :=
+  match w.splitOn ":" with
+  | ["AS", node, child, len, cfgs] =>
+      some (.andShuffle (node.toNat?.getD 0) (child.toNat?.getD 0) (parseCfgList (len.toNat?.getD 0) cfgs))
+  | ["OP", node, picks] => some (.orPicks (node.toNat?.getD 0) ((picks.splitOn ",").filterMap String.toNat?))
+  | ["OS", node, len, cfgs] => some (.orShuffle (node.toNat?.getD 0) (parseCfgList (len.toNat?.getD 0) cfgs))
+  | _ => none
+
+/-- `q sample <amount> <A…> | <events…>` -/
+def sampleAnswer (nodes : List NType) (n : Nat) (args : List String) : String :=
+  match args with
+  | amount :: rest =>
+      let (As, evs) := splitBar rest
+      let evs' := evs.filterMap parseSEv
+      if evs'.length != evs.length then "unparsed-event"
+      else match sampleAlong nodes n (parseIntsD As) (amount.toNat?.getD 0) evs' with
+        | none => "rejected-trace"
+        | some none => "none"
+        | some (some cs) => fmtCfgs cs
+  | [] => "bad-args"
+
+def fmtNode : NType → String
+  | .and cs => " ".intercalate ("A" :: cs.map toString)
+  | .or cs => " ".intercalate ("O" :: cs.map toString)
+  | .lit l => s!"L {l}"
+  | .tru => "T"
+  | .fls => "F"
+
+def splitOnTok (sep : String) (ws : List String) : List (List String) :=
+  let rec go : List String → List String → List (List String) → List (List String)
+    | [], cur, acc => (cur.reverse :: acc).reverse
+    | w :: rest, cur, acc => if w == sep then go rest [] (cur.reverse :: acc) else go rest (w :: cur) acc
+  go ws [] []
+
+def parseD4Line (ws : List String) : Option D4.Line :=
+  match ws with
+  | ["o", _, "0"] => some (.node .or)
+  | ["a", _, "0"] => some (.node .and)
+  | ["t", _, "0"] => some (.node .tru)
+  | ["f", _, "0"] => some (.node .fls)
+  | a :: b :: rest =>
+      match a.toNat?, b.toNat?, rest.getLast? with
+      | some x, some y, some "0" => some (.edge x y (rest.dropLast.filterMap String.toInt?))
+      | _, _, _ => none
+  | _ => none
+
+/-- `q d4load <total_features> | line / line / …` : the model loader on the text of a d4 file -/
+def d4loadAnswer (args : List String) : String :=
+  match args with
+  | tf :: "|" :: rest =>
+      let lines := (splitOnTok "/" rest).filter (!·.isEmpty)
+      let parsed := lines.filterMap parseD4Line
+      if parsed.length != lines.length then "unparsable"
+      else
+        let (n, nodes, err) := D4.load parsed (tf.toNat?.getD 0)
+        if err then "panic" else s!"{n} " ++ "|".intercalate (nodes.map fmtNode)
+  | _ => "bad-args"
+
+/-- `q c2dload | line / line / …` : the model loader on the text of a c2d file -/
+def c2dloadAnswer (args : List String) : String :=
+  match args with
+  | "|" :: rest =>
+      let lines := (splitOnTok "/" rest).filter (!·.isEmpty)
+      let toks := lines.map fun l => l.map fun w => match w.toInt? with | some i => Tk.num i | none => Tk.kw w
+      match parseFile toks with
+      | some (v, file) => s!"{v} " ++ "|".intercalate ((flatten file).map fmtNode)
+      | none => "unparsable"
+  | _ => "bad-args"
+
 def circuitLine (nodes : List NType) (n : Nat) : String :=
   -- hypotheses of the theorems: WF (wfB_sound) and LitUnique (litUniqueB_sound); the truth-table part of
   -- determinism is only evaluated for n ≤ 12
@@ -116,6 +193,20 @@ def answer (nodes : List NType) (n : Nat) (kind : String) (args : List String) :
       | ans :: q => (QueryFile.fmtLine (parseIntsD q) ans).replace "\n" "\\n"
       | [] => "bad-args"
   | "cnfok" => toString (litRangeB nodes n && ((tseitin nodes n).next != n + 1) && rootIsLastVarB nodes n)
+  | "sample" => sampleAnswer nodes n args
+  | "save" => " / ".intercalate ((writeFile nodes n).map renderLine)
+  | "reload" =>
+      match saveReload nodes n with
+      | some (v, ns) => s!"{v} " ++ "|".intercalate (ns.map fmtNode)
+      | none => "unparsable"
+  | "atomic" =>
+      match args with
+      | cross :: rest =>
+          let (cs, As) := splitBar rest
+          ";".intercalate ((atomicSets nodes n (cs.filterMap String.toNat?) (parseIntsD As) (cross == "1") []).map fmtInts)
+      | [] => "bad-args"
+  | "d4load" => d4loadAnswer args
+  | "c2dload" => c2dloadAnswer args
   | "enumok" => toString (enumOkB nodes)
   | "models" => fmtCfgs (models nodes (rootIx nodes))
   | _ => "unknown-query"
